@@ -419,7 +419,7 @@ pub fn run(ctx: &Ctx) -> (Acc, String, bool) {
     s1.extend(level1(&reduced));
     let n1 = s1.len() as u64;
     let exhaustive_total = n1 * n1;
-    let random_total: u64 = ctx.pick(60_000, 3_000_000);
+    let random_total: u64 = ctx.pick(400_000, 12_000_000);
     let depth = ctx.pick(3, 5);
     let seed = ctx.seed;
     let acc = run_cases(ctx, exhaustive_total + random_total, |i, acc| {
